@@ -194,6 +194,7 @@ func (ex *Exec) callByKey(fr *Frame, key string, callee *ssa.Function, args, bin
 		}
 		ex.inlined[key] = true
 		ex.pendingN = ex.iterAt(fr, site)
+		ex.pendingSite = site
 		ex.execFunc(callee, args, bindings, st, fr, func(st *State, r Value) {
 			k(st, r)
 		})
@@ -970,8 +971,20 @@ func (ex *Exec) checkCallsite(fr *Frame, key string, callee *ssa.Function, args 
 	env := ex.localEnv(fr, st, site)
 	if !fr.top && ex.topFr != nil {
 		// the call sits in a helper inlined into the function under contract: the clause may
-		// also name parameters of that function
-		for k, v := range ex.baseEnv(ex.topFr, st).vars {
+		// also name parameters and locals of that function (as they are at the call that was
+		// inlined)
+		var topSite ssa.Instruction
+		topFr := ex.topFr
+		for f := fr; f != nil && !f.top; f = f.parent {
+			if f.parent != nil && f.parent.top {
+				topSite, topFr = f.site, f.parent // the top frame as it is on this path
+			}
+		}
+		outer := ex.baseEnv(topFr, st)
+		if topSite != nil && topSite.Block() != nil && topSite.Parent() == topFr.fn {
+			outer = ex.localEnv(topFr, st, topSite)
+		}
+		for k, v := range outer.vars {
 			if _, has := env.vars[k]; !has {
 				env.vars[k] = v
 			}
